@@ -22,7 +22,7 @@ INDEXLOG = {'dict': False, 'gdict': False, 'shelf': False, 'disk': True, 'redis'
 def consts(cfg):
     """model constants of a scenario, or None"""
     if any(cfg.get(k) not in (None, -1, 0, False, [], ()) for k in ('split', 'store_pool', 'relay_pool', 'sep_bounce', 'announce_new', 'preload',
-                                                                      'lazy_load', 'fast_relay', 'real_relay', 'fail_delivered', 'null_sender')):
+                                                                      'lazy_load', 'fail_delivered', 'null_sender')):
         return None
     if cfg.get('started') is False or cfg.get('backend') not in INDEXLOG:
         return None
